@@ -43,6 +43,13 @@ class _BatchBase(Contract):
     def sent(self, st):
         return [e for e in st.events if e[0] == "invoke_batch"]
 
+    # call-site view (one submit function calling the other): the callee may have replaced the queue and made the remote request; nothing more is promised
+    def modifies(self, E, st, a):
+        return [(a["self"], "_BatchProxy__calls")] if isinstance(a.get("self"), VObj) else []
+
+    def result(self, E, st, a):
+        return VOpaque(fresh("submit_result", U))
+
     def common(self, st, oneway_term):
         ev = self.sent(st)
         ok = len(ev) == 1
@@ -57,6 +64,8 @@ class _BatchBase(Contract):
         return ev, post
 
     def x_any(self, E, old, st, a, exc):
+        if E.cur_contract is not self:
+            return []
         q = st.get(self.bp, "_BatchProxy__calls")
         return [("only the remote request can fail", z3.BoolVal(len(self.sent(st)) == 0 and "invoke_batch" in str(st.get(exc, "__cls__").term))),
                 ("a failed submit leaves an empty queue too: part of the batch may have run already, the next submit must not repeat it",
@@ -72,6 +81,8 @@ class BatchCall(_BatchBase):
         return {"self": self.mk(E, st), "oneway": VBool(self.oneway)}
 
     def ensures(self, E, old, st, a, result):
+        if E.cur_contract is not self:
+            return []
         ev, post = self.common(st, self.oneway)
         gen = isinstance(result, VObj) and result.cls == "results_generator"
         post.append(("a oneway batch returns nothing; otherwise the caller gets the generator over exactly this request's results",
@@ -88,6 +99,8 @@ class BatchInvoke(_BatchBase):
         return {"self": self.mk(E, st), "name": VOpaque(z3.Const("name", U)), "args": VOpaque(z3.Const("args", U)), "kwargs": VOpaque(z3.Const("kwargs", U))}
 
     def ensures(self, E, old, st, a, result):
+        if E.cur_contract is not self:
+            return []
         ev, post = self.common(st, None)
         post.append(("the caller gets the generator over this request's results", z3.BoolVal(isinstance(result, VObj) and result.cls == "results_generator")))
         return post
